@@ -106,6 +106,8 @@ class Ctx:
             log("[validate] %d chunk(s) failed, retrying once" % len(v.failures))
             v2 = vlib.validate_trace(trace_module, trace_path, self.scratch, cfg=cfg, group_marker=group_marker, env=env,
                                      jobs=jobs, min_lines=min_lines, timeout=timeout, xmx=xmx)
+            if v2.failures and v2.resource_failures == len(v2.failures):
+                raise vlib.Infra("TLC ran out of time or memory on %d chunk(s) of trace %s (not a verdict): %s" % (len(v2.failures), label, v2.failures[0][1][-300:]))
             if v2.failures:
                 p, tail = v2.failures[0]
                 with open(p, errors="replace") as f:
